@@ -39,7 +39,10 @@
 //!                    result served from the cache: TTL ∈ [base − ⌊age_hi⌋, base − ⌊age_lo⌋] (floored at 0)
 //!                    where base is what the inserting lookup reported — TTLs only count down;
 //!   [m2_neg_ttl]     `NoRecords::negative_ttl` fresh = the model's negative TTL (None without SOA in the
-//!                    authority section), cached = aged likewise;
+//!                    authority section) or that value clamped to the negative bounds (the statement says
+//!                    "clamped stored TTL"; hickory reports the upstream value and bounds only the lifetime —
+//!                    either reading is accepted, found by seeded preserving change C15-n1), cached = aged
+//!                    likewise;
 //!   [m2_valid_until] `Lookup::valid_until()` ≤ insertion + L (+1 s for results served from the cache,
 //!                    whose remaining TTL is rounded to whole seconds) — a Lookup must not claim validity
 //!                    beyond the lifetime of the entry it came from;
@@ -756,7 +759,9 @@ impl Model {
                     Some(t) => (clamp_l(t as u64), clamp_l(t as u64)),
                     None => (MAX_TTL_S, 0),
                 };
-                let ntr = nt.map(|t| (t, t));
+                // the statement speaks of "the clamped stored TTL": whether `NoRecords::negative_ttl` reports the
+                // upstream value (what hickory does) or the clamped one is left open — both, aged, are accepted
+                let ntr = nt.map(|t| ((clamp_l(t as u64).min(t as u64)) as u32, t));
                 self.states.insert(name.clone(), State::Live(mk(hard, soft, true, ntr, if nt.is_some() { "soa" } else { "no_soa" })));
                 Walk::Neg { hard, soft, nt: ntr }
             }
